@@ -160,3 +160,17 @@ func zzH_C18_envelope_ban(t *zzT) {
 		t.Reach("banned")
 	}
 }
+
+// C09 (untrusted input never crashes the node), P2P side: the request and response stream handlers on
+// an arbitrary envelope (malformed bytes, unknown procedure, well-formed) return without a panic — the
+// stream-handler goroutines of libp2p have no recover, a panic there kills the process. Same harness as
+// C18.d (which additionally asserts the ban), registered under C09 for the crash clause.
+//
+//zz:opt loop=4000
+//zz:opt require=accepted,banned
+//zz:stub time.Now zzStubNow
+//zz:stub github.com/google/uuid.New zzStubUUID
+//zz:stub github.com/libp2p/go-libp2p/core/network.WithUseTransient zzStubWithUseTransient
+//zz:quick B=2
+//zz:thorough B=4
+func zzH_C09_p2p_envelope(t *zzT) { zzH_C18_envelope_ban(t) }
